@@ -922,7 +922,7 @@ func genL3Case(r *vlib.R, emit func(string)) int {
 	capS := vlib.Pick(r, []int{0, 120, 300, 100000})
 	emit(fmt.Sprintf("l3 new %s %d", polS, capS))
 	fam := 4
-	if r.Chance(1, 3) {
+	if r.Chance(1, 2) {
 		fam = 6
 	}
 	base := []byte{10, 1, byte(2 + r.Intn(2)), 0}
@@ -958,10 +958,19 @@ func genL3Case(r *vlib.R, emit func(string)) int {
 		s := vlib.Pick(r, sites)
 		emit(fmt.Sprintf("l3 q %s %s %s", s.client, genOpts(r, spec, 85, s.ecs, true), decl()))
 	}
-	if r.Chance(1, 2) {
+	if r.Chance(3, 4) {
+		// two cache-missing clients at the same time: same family, SAME forwarded prefix
+		// length (both offer at least the ceiling), different networks — or, now and
+		// then, whatever the option generator makes of the two sites
 		a, b := sites[0], sites[2+r.Intn(2)]
+		code := map[int]int{4: 1, 6: 2}[fam]
+		oa := fmt.Sprintf("E%d.%d.0.%s", code, vlib.Pick(r, []int{w, c, c + 1}), vlib.Hex(a.ecs))
+		ob := fmt.Sprintf("E%d.%d.0.%s", code, vlib.Pick(r, []int{w, c, c + 1}), vlib.Hex(b.ecs))
+		if r.Chance(1, 4) {
+			oa, ob = genOpts(r, spec, 100, a.ecs, false), genOpts(r, spec, 100, b.ecs, false)
+		}
 		emit(fmt.Sprintf("l3 new %s %d", polS, capS))
-		emit(fmt.Sprintf("l3 race %s %s %s %s S%d", a.client, genOpts(r, spec, 100, a.ecs, false), b.client, genOpts(r, spec, 100, b.ecs, false), c))
+		emit(fmt.Sprintf("l3 race %s %s %s %s S%d", a.client, oa, b.client, ob, c))
 		n += 2
 	}
 	return n + 1
